@@ -339,3 +339,43 @@ func recipeTies(r *hx.Rng, seed uint64, rep int) *History {
 	}
 	return h
 }
+
+// failingEnactments: proposals of many kinds that pass their vote and FAIL when they are enacted by the gov end blocker
+// (submitted twice in one block: both pass the dry run at submission, the second finds the effect of the first).
+// Whatever the end blocker stores or emits about the failure must be the same on every replica -- including the
+// child-process replica, which is a differently built binary (error values render build paths with %v / %+v).
+func failingEnactments(r *hx.Rng, seed uint64) *History {
+	cfg := baseCfg(seed, 995)
+	w := newWorld(r, cfg)
+	h := &History{Name: "failing-enactments", Class: "enactment-failures", Cfg: cfg, Extra: []string{"stream:failing-enactments"}}
+	a0 := w.acc[0].Addr
+	var b1 []TxSpec
+	add := func(c govtypes.Content) {
+		m, err := govtypes.NewMsgSubmitProposal(a0, "dup", "fails at enactment", c)
+		if err != nil {
+			panic(err)
+		}
+		w.proposals++
+		b1 = append(b1, tx(0, fmt.Sprintf("proposal %d %s", w.proposals, c.ProposalType()), m),
+			tx(0, fmt.Sprintf("vote %d", w.proposals), govtypes.NewMsgVoteProposal(uint64(w.proposals), a0, govtypes.OptionYes, sdk.ZeroDec())))
+	}
+	twice := func(mk func() govtypes.Content) { add(mk()); add(mk()) }
+	twice(func() govtypes.Content { return govtypes.NewWhitelistAccountPermissionProposal(w.acc[1].Addr, govtypes.PermClaimCouncilor) })
+	twice(func() govtypes.Content { return govtypes.NewBlacklistAccountPermissionProposal(w.acc[2].Addr, govtypes.PermClaimValidator) })
+	twice(func() govtypes.Content {
+		return govtypes.NewCreateRoleProposal("dupe", "created twice", []govtypes.PermValue{govtypes.PermClaimCouncilor}, nil)
+	})
+	twice(func() govtypes.Content { return govtypes.NewAssignRoleToAccountProposal(w.acc[3].Addr, "validator") })
+	twice(func() govtypes.Content { return govtypes.NewWhitelistRolePermissionProposal("validator", govtypes.PermCreatePollProposal) })
+	twice(func() govtypes.Content { return govtypes.NewUnassignRoleFromAccountProposal(w.acc[0].Addr, "nosuchrole") })
+	twice(func() govtypes.Content { return govtypes.NewRemoveRoleProposal("nosuchrole") })
+	h.Blocks = []BlockSpec{
+		{Req: abci.BlockReq{Dt: 5}, Txs: b1},
+		{Req: abci.BlockReq{Dt: 200}, Txs: []TxSpec{w.bankSend()}},
+		{Req: abci.BlockReq{Dt: 150, Proposer: 1}, Txs: []TxSpec{w.bankSend()}}, // voting ends
+		{Req: abci.BlockReq{Dt: 200, Proposer: 2}, Txs: []TxSpec{w.bankSend()}},
+		{Req: abci.BlockReq{Dt: 150}, Txs: []TxSpec{w.bankSend()}}, // enactment
+		{Req: abci.BlockReq{Dt: 5, Proposer: 1}, Txs: []TxSpec{w.bankSend()}},
+	}
+	return h
+}
